@@ -471,6 +471,28 @@ PROPS['C14'] = {
     ],
 }
 
+# Fallback search: EVERY obligation of a property that fails without counterexample or cannot be generated (a refactoring that the
+# extraction or the verifier front end does not follow) is handed to all drivers of that property - the specific ones first, then these.
+# Drivers registered for a known finding are left out (they find their input on the unchanged tree by design).
+_EXTRA = {
+    'C01': [INIT_DRV, STAGES_DRV, ISO_DRV], 'C02': [ISO_DRV, WINDOW_DRV], 'C03': [WINDOW_DRV], 'C04': [WINDOW_DRV, ISO_DRV],
+    'C06': [NEG_DRV, INIT_DRV, STAGES_DRV], 'C08': [STAGES_DRV, ISO_DRV], 'C10': [ISO_DRV, TABLE_MODEL], 'C11': [TABLE_MODEL, ISO_DRV, NODE_PEERS_DRV],
+    'C12': [TABLE_MODEL, NODE_PEERS_DRV, ISO_DRV], 'C13': [TABLE_MODEL, ISO_DRV, NODE_PEERS_DRV], 'C14': [SELF_DRV, STAGES_DRV, OWN_DRV],
+    'C15': [NODE_PEERS_DRV], 'C16': [CODEC_DRV, INIT_DRV], 'C19': [ISO_DRV],
+}
+for _pid, _P in PROPS.items():
+    _ns = _P.setdefault('native_search', {})
+    _all = []
+    for _k, _v in list(_ns.items()):
+        for _d in (_v if isinstance(_v, list) else [_v]):
+            if _d not in _all and 'beacon_roundtrip' not in _d['file'] and not _d.get('env'):
+                _all.append(_d)
+    for _d in _EXTRA.get(_pid, []):
+        if _d not in _all:
+            _all.append(_d)
+    if _all:
+        _ns[r'.*'] = _all
+
 NOT_APPLICABLE = {
     'C05': 'all-schedules agreement and recovery of two retransmitting state machines plus a liveness bound: a protocol-level joint invariant and liveness, outside per-function contracts',
     'C07': 'invariant over the product of two RotationStates, eight key slots and in-flight messages with key identity defined through ECDH; liveness clause; not decidable by per-function contracts within reach',
